@@ -35,10 +35,11 @@ MISSING = object()
 
 
 class Pk:
-    __slots__ = ("abs", "seq", "ts", "frame")
+    __slots__ = ("abs", "seq", "ts", "frame", "pad")
 
-    def __init__(self, abs_, seq, ts, frame):
+    def __init__(self, abs_, seq, ts, frame, pad=False):
         self.abs, self.seq, self.ts, self.frame = abs_, seq, ts, frame
+        self.pad = pad  # padding-only packet: padding bit set, no payload (it contributes nothing to the frame's data)
 
 
 def serial_lt16(a, b):
@@ -59,6 +60,7 @@ class Monitor:
         self.released_frames = []  # frame index list per released frame
         self.released_pk = collections_counter()
         self.ring_ok = getattr(jb, "_packets", MISSING) is not MISSING
+        self.pad_by_seq = {}
 
     def ring(self):
         ring = getattr(self.jb, "_packets", MISSING)
@@ -81,6 +83,12 @@ class Monitor:
             self.late100 = True
         packet = RtpPacket(payload_type=96, sequence_number=pk.seq, timestamp=pk.ts, ssrc=1234)
         packet._data = struct.pack("!L", aid)
+        if pk.pad:
+            packet.padding_size = 1 + aid % 200
+            packet.payload = b""
+            packet._data = b""
+            self.pad_by_seq.setdefault(pk.seq, []).append(pk)
+            out.counters["padding_only_arrivals"] += 1
         packet._vt_abs = pk.abs
         before = self.ring() if self.ring_ok else None
         try:
@@ -114,15 +122,45 @@ class Monitor:
         out = self.out
         out.counters["frames_checked"] += 1
         data = frame.data
+        self.last_released_seqs = set()
+        if not data and self.pad_by_seq:
+            # a frame made of padding-only packets: which ones cannot be told from the data
+            cands = {q.seq for lst in self.pad_by_seq.values() for q in lst if q.ts == frame.timestamp}
+            if not cands:
+                out.fail("frame-data-not-whole-packets", f"empty frame (timestamp {frame.timestamp}) after arrival #{aid}", self.desc)
+            self.last_released_seqs = cands
+            out.counters["padding_only_frames"] += 1
+            return set()
         if len(data) % 4 or not data:
             out.fail("frame-data-not-whole-packets", f"frame data of {len(data)} bytes after arrival #{aid}", self.desc)
             return set()
         ids = [struct.unpack_from("!L", data, i)[0] for i in range(0, len(data), 4)]
-        self.last_released_seqs = set()
         if any(i >= len(self.arrivals) for i in ids):
             out.fail("frame-unknown-packet", f"frame contains data of no received packet {ids[:5]}", self.desc)
             return set()
         pks = [self.arrivals[i] for i in ids]
+        edge = set()
+        if self.pad_by_seq:
+            # padding-only packets leave no trace in the data: inside the run they are the only legitimate gaps, at its
+            # ends they may or may not have been part of the frame
+            def pad_at(seq):
+                return next((q for q in self.pad_by_seq.get(seq, ()) if q.ts == frame.timestamp), None)
+
+            full = [pks[0]]
+            for b in pks[1:]:
+                a = full[-1]
+                gap = (b.seq - a.seq) & 0xFFFF
+                if 1 < gap <= 64:
+                    fill = [pad_at((a.seq + k) & 0xFFFF) for k in range(1, gap)]
+                    if all(f is not None for f in fill):
+                        full.extend(fill)
+                full.append(b)
+            pks = full
+            for start, step in ((pks[0].seq, -1), (pks[-1].seq, 1)):
+                k = 1
+                while k <= 64 and pad_at((start + step * k) & 0xFFFF) is not None:
+                    edge.add((start + step * k) & 0xFFFF)
+                    k += 1
         if any(p.ts != frame.timestamp for p in pks):
             out.fail("frame-mixed-timestamps", f"frame.timestamp={frame.timestamp} built from packets with timestamps "
                      f"{sorted({p.ts for p in pks})[:4]} (seqs {[p.seq for p in pks][:8]})", self.desc)
@@ -146,11 +184,12 @@ class Monitor:
                 out.fail("frames-out-of-order", f"frame starting at seq {pks[0].seq} released after one starting at "
                          f"{self.last_frame_seq}", self.desc)
         self.used |= absids
-        self.last_released_seqs = {p.seq for p in pks}
+        self.last_released_seqs = {p.seq for p in pks} | edge
         self.last_frame_seq = pks[0].seq
         self.released_frames.append(sorted({p.frame for p in pks}))
         for p in pks:
-            self.released_pk[p.abs] += 1
+            if not p.pad:
+                self.released_pk[p.abs] += 1
         return absids
 
 
@@ -171,11 +210,15 @@ def gen_stream(rng, n_frames, max_len, start=None, ts0=None):
     pks = []
     a = 0
     sizes = []
+    padding = rng.random() < 0.25
     for f in range(n_frames):
         n = rng.randint(1, max_len)
         sizes.append(n)
-        for _ in range(n):
-            pks.append(Pk(a, (start + a) & 0xFFFF, (ts0 + 3000 * f) & 0xFFFFFFFF, f))
+        pads = set()
+        if padding and n >= 2 and rng.random() < 0.4:
+            pads = set(rng.sample(range(n), rng.randint(1, min(2, n - 1))))
+        for j in range(n):
+            pks.append(Pk(a, (start + a) & 0xFFFF, (ts0 + 3000 * f) & 0xFFFFFFFF, f, pad=j in pads))
             a += 1
     return pks, sizes
 
@@ -281,7 +324,8 @@ def run_history(rng, out, capacity, prefetch, is_video, arr, pks, sizes, feats):
         want = list(range(0, n_frames))
         got = [f for fr in mon.released_frames for f in fr]
         missing = [f for f in want if f not in got]
-        partial = [p.frame for p in pks if p.frame in want and mon.released_pk[p.abs] != 1]
+        # padding-only packets at the ends of a frame leave no trace in the data: only packets that carry data are counted
+        partial = [p.frame for p in pks if p.frame in want and not p.pad and mon.released_pk[p.abs] != 1]
         affected = set(missing) | set(partial)
         if affected and feats.get("first_arrival_abs", 0) > 0 and max(affected) <= feats["first_arrival_frame"]:
             # known mechanism: the buffer anchors at the first arrival; lower-numbered packets arriving later are discarded
